@@ -2,8 +2,8 @@
    followed by Print Assumptions.  All ring statements hold for every commutative ring
    (R, 0, 1, +, *, -, opp) with Leibniz equality, in particular the reals; Model.centry /
    Model.tentry / Model.kentry are the entries of asarray() / asmatrix(). *)
-From Coq Require Import List Arith ZArith Ring.
-From Verif.C18 Require Import Model Proofs Proofs2.
+From Coq Require Import List Arith ZArith Ring Field.
+From Verif.C18 Require Import Model Proofs Proofs2 Proofs3 Proofs4 Proofs5.
 Import ListNotations.
 
 (* range(n)[i] for an int i (negative allowed) is an existing position. *)
@@ -453,20 +453,127 @@ Theorem generator_getitem_spec_partial :
 Proof. exact generator_getitem_noint. Qed.
 Print Assumptions generator_getitem_spec_partial.
 
-(* NOT PROVED (kept as statements; these conjuncts rest on the exact correspondence run only):
+(* TensorGenerator.__getitem__ for EVERY accepted index expression (ints, negative ints, slices with steps, index lists, missing trailing axes): the result has the shape of the axes not indexed by an int and holds, at C-order position ravel(shape, idx), exactly the wrapped entry at the selected positions (np.squeeze of the unit axes does not move the C-order position: Proofs4.ravel_keepb). *)
+Theorem generator_getitem_spec :
+  forall (R : Type) (shape : list nat) (f : list nat -> R) (II : list index)
+      (ax : list (list nat * bool)) (sh : list nat) (data : list R) (idx : list nat) 
+      (d : R),
+    normalize_indices II shape = Ok ax ->
+    gen_getitem R shape f II = Ok (sh, data) ->
+    length idx = length (filter negb (map snd ax)) ->
+    all_lt idx sh = true ->
+    sh = keepb (sel_shape ax) (map snd ax) /\
+    nth (ravel sh idx) data d = f (sel_idx (sel_ranges ax) (unsqb (map snd ax) idx)).
+Proof. exact generator_getitem_full. Qed.
+Print Assumptions generator_getitem_spec.
 
-   aca_rank_reduction (full):  forall r, a matrix of exact rank r is reproduced after r accepted
-     crosses (Wedderburn rank reduction).  Missing: a rank notion over the abstract ring / field;
-     proved: the residual vanishes on every pivot row and column (and stays so is NOT proved), rank 1.
+(* TuckerTensor.__getitem__ IN FULL (row selection of every factor + squeeze of the int-indexed axes, scalar for all ints), for every accepted index expression. *)
+Theorem tucker_getitem :
+  forall (R : Type) (rO rI : R) (radd rmul rsub : R -> R -> R) (ropp : R -> R),
+    ring_theory rO rI radd rmul rsub ropp eq ->
+    forall (Us : list (mat R)) (X : full R) (II : list index) (ax : list (list nat * bool)) 
+      (t' : tens R) (idx' : list nat),
+    core_ok R Us X ->
+    Us <> [] ->
+    normalize_indices II (tshape R Us) = Ok ax ->
+    getitem R rO rI radd rmul (TTucker R Us X) II = Ok t' ->
+    length idx' = length (filter negb (map snd ax)) ->
+    entry R rO rI radd rmul t' idx' =
+    tentry R rO radd rmul Us X (sel_idx (sel_ranges ax) (unsqb (map snd ax) idx')).
+Proof. exact tucker_getitem_spec. Qed.
+Print Assumptions tucker_getitem.
 
-   tucker_getitem: the Tucker analogue of canon_getitem (row selection + tucker_squeeze are proved
-     separately; the case analysis of squeeze_axes is not assembled).
+(* Wedderburn rank reduction, explicit: over a field, if R = sum_{k<r+1} u_k v_k^T, the pivot R[i,j0] is non-zero and v_m[j0] <> 0, the residual after the cross R - R[:,j0] R[i,:] / R[i,j0] is the sum of the r outer products u'_k v'_k^T (k <> m) with u'_k = u_k - (u_k[i]/p) R[:,j0], v'_k = v_k - (v_k[j0]/v_m[j0]) v_m. *)
+Theorem wedderburn_rank_reduction_step :
+  forall (F : Type) (rO rI : F) (radd rmul rsub : F -> F -> F) (ropp : F -> F) 
+      (rdiv : F -> F -> F) (rinv : F -> F),
+    field_theory rO rI radd rmul rsub ropp rdiv rinv eq ->
+    forall (r : nat) (u v Rm : nat -> nat -> F) (i j0 m : nat),
+    outer_sum F rO radd rmul (S r) u v Rm ->
+    Rm i j0 <> rO ->
+    m <= r ->
+    v m j0 <> rO ->
+    outer_sum F rO radd rmul r (fun k : nat => wu F rmul rsub rdiv u Rm i j0 (skip m k))
+      (fun k : nat => wv F rmul rsub rdiv v j0 m (skip m k)) (wstep F rmul rsub rdiv Rm i j0).
+Proof. exact wedderburn_explicit. Qed.
+Print Assumptions wedderburn_rank_reduction_step.
 
-   generator_getitem_spec with int indices: ravel invariance under dropping unit axes is missing
-     (generator_getitem_spec_partial covers every expression without int indices).
+(* one accepted cross at a non-zero pivot reduces the (outer-product) rank by one. *)
+Theorem aca_rank_reduction_step :
+  forall (F : Type) (rO rI : F) (radd rmul rsub : F -> F -> F) (ropp : F -> F) 
+      (rdiv : F -> F -> F) (rinv : F -> F),
+    field_theory rO rI radd rmul rsub ropp rdiv rinv eq ->
+    (forall x y : F, {x = y} + {x <> y}) ->
+    forall (r : nat) (Rm : nat -> nat -> F) (i j0 : nat),
+    has_rank F rO radd rmul (S r) Rm ->
+    Rm i j0 <> rO -> has_rank F rO radd rmul r (wstep F rmul rsub rdiv Rm i j0).
+Proof. exact wedderburn_step. Qed.
+Print Assumptions aca_rank_reduction_step.
 
-   truncation with orthonormal factors: ||A - truncate(A)||_F^2 = discarded core mass needs the
-     isometry of orthonormal mode products (not modelled: QR/SVD are LAPACK's); truncation_error_bound
-     is the statement about the core.
+(* after r crosses with non-zero pivots the residual of a sum of r outer products vanishes identically. *)
+Theorem aca_rank_reduction_residual :
+  forall (F : Type) (rO rI : F) (radd rmul rsub : F -> F -> F) (ropp : F -> F) 
+      (rdiv : F -> F -> F) (rinv : F -> F),
+    field_theory rO rI radd rmul rsub ropp rdiv rinv eq ->
+    (forall x y : F, {x = y} + {x <> y}) ->
+    forall (pivots : list (nat * nat)) (r : nat) (Rm : nat -> nat -> F),
+    has_rank F rO radd rmul r Rm ->
+    length pivots = r ->
+    pivots_ok F rO rmul rsub rdiv pivots Rm ->
+    forall a b : nat, Proofs3.resid F rmul rsub rdiv pivots Rm a b = rO.
+Proof. exact rank_reduction. Qed.
+Print Assumptions aca_rank_reduction_residual.
 
-   error_history_monotone: tie only (harness/props/c18_num.py states the bounds). *)
+(* lowrank.aca in exact arithmetic (Model.aca_step iterated): if A - X is a sum of r outer products, r accepted crosses - alpha * E_row[j0] = 1, i.e. every pivot non-zero - reproduce A exactly. *)
+Theorem aca_rank_reduction :
+  forall (F : Type) (rO rI : F) (radd rmul rsub : F -> F -> F) (ropp : F -> F) 
+      (rdiv : F -> F -> F) (rinv : F -> F),
+    field_theory rO rI radd rmul rsub ropp rdiv rinv eq ->
+    (forall x y : F, {x = y} + {x <> y}) ->
+    forall (steps : list (nat * nat * F)) (r : nat) (A X : mat F),
+    has_rank F rO radd rmul r (fun a b : nat => rsub (me F A a b) (me F X a b)) ->
+    length steps = r ->
+    steps_ok F rI radd rmul rsub A X steps ->
+    forall a b : nat, me F (aca_run F radd rmul rsub A X steps) a b = me F A a b.
+Proof. exact aca_exact_after_r. Qed.
+Print Assumptions aca_rank_reduction.
+
+(* energy identity behind the gta error history: extending an orthonormal family by q_m lowers the squared error of the orthogonal projection by exactly the square <q_m,a>^2 (hence the history is non-increasing in every ordered field). *)
+Theorem error_history_energy_step :
+  forall (R : Type) (rO rI : R) (radd rmul rsub : R -> R -> R) (ropp : R -> R),
+    ring_theory rO rI radd rmul rsub ropp eq ->
+    forall (n : nat) (q : nat -> nat -> R) (m : nat) (a : nat -> R),
+    orthonormal R rO rI radd rmul n q (S m) ->
+    dot R rO radd rmul n (resid R rO radd rmul rsub n q (S m) a) (resid R rO radd rmul rsub n q (S m) a) =
+    rsub (dot R rO radd rmul n (resid R rO radd rmul rsub n q m a) (resid R rO radd rmul rsub n q m a))
+      (rmul (coef R rO radd rmul n q a m) (coef R rO radd rmul n q a m)).
+Proof. exact energy_step. Qed.
+Print Assumptions error_history_energy_step.
+
+(* ||a - P_m a||^2 = ||a||^2 - sum_{k<m} <q_k,a>^2 for the projection onto an orthonormal family. *)
+Theorem error_history_energy_identity :
+  forall (R : Type) (rO rI : R) (radd rmul rsub : R -> R -> R) (ropp : R -> R),
+    ring_theory rO rI radd rmul rsub ropp eq ->
+    forall (n : nat) (q : nat -> nat -> R) (m : nat) (a : nat -> R),
+    orthonormal R rO rI radd rmul n q m ->
+    dot R rO radd rmul n (resid R rO radd rmul rsub n q m a) (resid R rO radd rmul rsub n q m a) =
+    rsub (dot R rO radd rmul n a a)
+      (sumn R rO radd m (fun k : nat => rmul (coef R rO radd rmul n q a k) (coef R rO radd rmul n q a k))).
+Proof. exact energy_identity. Qed.
+Print Assumptions error_history_energy_identity.
+
+(* NOT PROVED (these rest on the correspondence run only):
+
+   error_history_monotone for grou: each als1 correction is only a stationary point of the rank-1 problem,
+     not an orthogonal projection onto a fixed orthonormal family; for gta the statement is
+     error_history_energy_step under the hypothesis that the bases are orthonormal (which the code
+     maintains by Gram-Schmidt; the floating-point loss of orthogonality was the defect fixed by
+     fixes/C18-gta-relative-span-guard.patch) - the identification of the Tucker projection with the
+     projection onto the product basis q_(k1..kd) = u_1,k1 (x) ... (x) u_d,kd is not formalised.
+
+   truncation with orthonormal factors: ||A - truncate(A)||_F^2 = discarded core mass needs the isometry
+     of orthonormal mode products (QR/SVD are LAPACK's, not modelled); truncation_error_bound is the
+     statement about the core.
+
+   aca pivot SEARCH (argmax of |E_row|, random restarts, tolerance counters) is not modelled: the theorems
+     are about any sequence of accepted crosses with non-zero pivots. *)
